@@ -20,6 +20,7 @@ import vlib
 HELPERS = """template U() { signal input in; signal output out; out <== in; }
 template V() { signal output o1; signal input b; signal input a; signal output o2; o1 <== a; o2 <== b * a; }
 template Z() { signal input in; in === 0; }
+template W() { signal input in; signal output row[2]; row[0] <== in; row[1] <== in + 1; }
 template P(n) { signal input in; signal output out; out <== in * n; }
 function g(x) { return x + 1; }
 """
@@ -248,6 +249,11 @@ HAND = [
     "template H24() { signal input a; signal output o; signal output p; signal output q; ((o, (_, p)), q) <-- ((a, (a, a * a)), a); }",
     "template H25() { signal input a; signal output o; signal output p; signal output q; ((o, p, _), q) <== ((a, V()(a, a)), a); }",
     "template H26() { signal input a; signal output o; signal output p; signal output q; (o, p, q) <== ((a, (a, a)), a); }",
+    # an array index that follows a component access (seeded C18 m7: the walk over the accesses stopped at the first component access)
+    "template H27() { signal input a; signal output o; component t = W(); t.in <== a; o <== t.row[U()(a)]; }",
+    "template H28() { signal input a; signal output o; component t = W(); t.in <== a; o <== t.row[(0, 1)]; }",
+    "function h29(x) { var t[2][2]; var r = t[0][(0, 1)]; return r; }",
+    "template H30() { signal input a; signal output o; component t[2]; t[0] = W(); t[0].in <== a; o <== t[0].row[1 + U()(a)]; }",
 ]
 
 # (sugared, hand-written expansion): the findings must coincide (component names normalised)
